@@ -14,7 +14,7 @@ a pristine per-item reference, reference by construction.
 import copy
 import re
 
-from .core import H, rng_for, digest, dumps, sha, jdump, iteration_order, HarnessError, raised_in_harness
+from .core import H, rng_for, digest, dumps, sha, jdump, iteration_order, HarnessError, raised_in_harness, apply_env, env_debug_logging
 from . import gen_mol
 
 MALFORMED = [
@@ -262,7 +262,7 @@ def generate(run_seed, prop, tier="quick"):
         current = cid
         remaining[cid] -= 1
         schedule.append(cid)
-    return {"family": "resolver", "prop": prop, "run_seed": run_seed, "items": items, "libs": libs,
+    return {"family": "resolver", "prop": prop, "run_seed": run_seed, "debug_logging": env_debug_logging(run_seed), "items": items, "libs": libs,
             "clients": clients, "schedule": schedule, "style": style,
             "faults_enabled": sorted(k for k, v in faults_enabled.items() if v)}
 
@@ -617,7 +617,10 @@ class _Run:
 
 
 def run_scenario(scenario, only_client=None):
-    return _Run(scenario, only_client).run()
+    run = _Run(scenario, only_client)
+    if only_client is None:
+        apply_env(scenario, run.stats)
+    return run.run()
 
 
 # ---------------------------------------------------------------------------
